@@ -50,7 +50,7 @@ def gen(rng, tier):
             p = nv_
         c["stale_index"] = None
         r = rng.random()
-        if r < 0.15 and p > 1 and fmt != ".vcf.gz+idx":
+        if r < (0.15 if fmt.startswith(".pgen") else 0.35) and p > 1 and fmt != ".vcf.gz+idx":
             # records in any order: contigs interleaved, positions not sorted (an unsorted VCF cannot be indexed, but it
             # must still come back as it was written)
             perm = list(range(p))
@@ -58,7 +58,7 @@ def gen(rng, tier):
                 rng.shuffle(perm)
             c["variants"] = [c["variants"][j] for j in perm]
             c["data"] = [[row[j] for j in perm] for row in c["data"]]
-        elif r < 0.3 and p > 1 and fmt in (".vcf.gz", ".bcf"):
+        elif r < 0.6 and p > 1 and fmt in (".vcf.gz", ".bcf"):
             # the path held an older, smaller, indexed file before: the index left beside it must not matter
             c["stale_index"] = rng.randint(1, p - 1)
         if len(c["samples"]) > 1 and rng.random() < 0.15:
